@@ -31,6 +31,24 @@ pub fn j_round_trip(days: i64, sec_of_day: i128, ns: i128, ts: TimeScale, leap: 
         let cc = p(Epoch::from_str(&iso));
         let json = serde_json::to_string(&e).map_err(|e| e.to_string());
         let d: Result<(TimeScale, i128), String> = json.clone().and_then(|j| serde_json::from_str::<Epoch>(&j).map(|e| (e.time_scale, alpha(e.duration))).map_err(|e| e.to_string()));
+        // the same Deserialize impl driven through an owned Value, a reader and JSON text with an escape sequence
+        let d = match (&json, d) {
+            (Ok(j), Ok(first)) => {
+                let esc = format!("\"\\u{:04x}{}", j.as_bytes()[1] as u32, &j[2..]);
+                let q = |x: Result<Epoch, serde_json::Error>, how: &str| x.map(|e| (e.time_scale, alpha(e.duration))).map_err(|e| format!("{how}: {e}"));
+                let others = [
+                    q(serde_json::to_value(e).and_then(serde_json::from_value::<Epoch>), "to_value/from_value"),
+                    q(serde_json::from_reader::<_, Epoch>(j.as_bytes()), "from_reader"),
+                    q(serde_json::from_str::<Epoch>(&esc), "from_str(escaped)"),
+                ];
+                match others.into_iter().find(|o| o.as_ref().ok() != Some(&first)) {
+                    Some(Err(bad)) => Err(bad),
+                    Some(Ok(other)) => Err(format!("another deserializer path gives {other:?}")),
+                    None => Ok(first),
+                }
+            }
+            (_, d) => d,
+        };
         let rfc = e.to_rfc3339();
         let f = p(Epoch::from_str(&rfc));
         let isof = e.to_isoformat();
@@ -71,7 +89,7 @@ pub fn j_round_trip(days: i64, sec_of_day: i128, ns: i128, ts: TimeScale, leap: 
                     return;
                 }
                 let nt = ns != 0 || c < 0;
-                out.ok(10, nt, (ts as u64) | ((ns == 0) as u64) << 4 | ((c < 0) as u64) << 5);
+                out.ok(13, nt, (ts as u64) | ((ns == 0) as u64) << 4 | ((c < 0) as u64) << 5);
                 if out.want_sample(nt) {
                     out.sample("c10.round_trip", args, shown, nt);
                 }
